@@ -114,6 +114,11 @@ func compRun(args []string) error {
 		if probe, err = compdrv.ProbeLeaksResults(*fault); err != nil {
 			return err
 		}
+	case "ignoreNamedFlush":
+		var err error
+		if probe, err = compdrv.ProbeIgnoresNamedFlush(*fault); err != nil {
+			return err
+		}
 	}
 	fmt.Printf("{\"walks\":%d,\"pass\":%d,\"fail\":%d,\"skip\":%d,\"events\":%d,\"probe_faulty\":%v}\n", len(vs), pass, fail, skip, sink.N, probe)
 	return nil
